@@ -721,3 +721,39 @@ def p7_closed_check(ctx):
                 v = const_int(arg_origin(b, t, 1))
                 r.add(fam_name(b), "closed is only ever set to true", v == 1 and is_call_to(t, "AtomicCell::store"), where(b, bb), "value %s" % v)
     return r
+
+
+# ---------------------------------------------------------------------------------------------
+# P18: Handle operations delegate to the writer under its lock and return its verdict
+
+
+def p18_handle_delegation(ctx):
+    r = RuleResult("P18", "Handle::put / delete / merge / sync: on the open path the result returned is exactly the result of the corresponding Writer method called through writer.lock() (no value computed outside the lock is substituted), and these methods do not consult the index themselves — what a client is told comes from the state the writer saw under the mutex", floor=4)
+    prog = ctx.prog
+    for hm, wm in (("put", "put"), ("delete", "delete"), ("merge", "merge"), ("sync", "sync")):
+        b = prog.one("storage::bitcask::Handle::%s" % hm)
+        f = fam_name(b)
+        cs = [(bb, t) for _, bb, t in calls_in([b], "storage::bitcask::Writer::%s" % wm)]
+        if len(cs) != 1:
+            r.bad(f, "call Writer::%s ×%d" % (wm, len(cs)), short_span(b.span), "expected exactly one delegation")
+            continue
+        cbb, ct = cs[0]
+        recv = arg_origin(b, ct, 0)
+        locked = bool(origin_mentions(recv, lambda x: x[0] == "field" and x[2] == "writer")) and any(is_call_to(t2, "lock_api::Mutex::lock", "lock_api::mutex::Mutex::lock", "parking_lot::lock_api::Mutex::lock") for _, t2 in b.calls())
+        r.add(f, "Writer::%s is called on self.writer.lock()" % wm, locked, where(b, cbb), origin_str(recv)[:80])
+        rets = ret_classes(b, 0, lambda e: e.kind == "unwind")
+        bad = []
+        for c, d, rb in rets:
+            if c == "err":
+                o = ret_origin(b, d)
+                if o is not None and "Closed" in origin_str(o):
+                    continue
+                bad.append(c)
+            elif c == "pass" and d == (cbb, "T"):
+                continue
+            else:
+                bad.append(c)
+        r.add(f, "returns the writer's result unchanged (or Err(Closed))", not bad, where(b, cbb), "" if not bad else "a return value is produced outside the delegation: %s" % bad)
+        idx = [bb for bb, t in b.calls() if bb in b.live_blocks() and (strip_generics(t.get("callee")) or "").startswith("dashmap::DashMap::")]
+        r.add(f, "does not consult the index outside the writer lock", not idx, where(b, idx[0]) if idx else short_span(b.span))
+    return r
